@@ -1,42 +1,46 @@
 """C01: every returned solution satisfies all rules."""
 import vlib
-from props import solverstream as ss
+from props import solverstream as ss, tracecheck as tc
 
-THEOREMS = ["C01_oracle_correct"]
-CHECKER = ("coqc Props/C01.v + Print Assumptions; harness solve_cases (debug+release, sync+yield) -> "
-           "extracted o_valid on every returned solution")
+THEOREMS = ["C01_oracle_correct", "C01_closed_model_valid", "C01_final_state_valid", "C01_trace_sound"]
+CHECKER = ("coqc Props/C01.v + Print Assumptions; harness solve_cases (debug+release, sync+yield): (a) hook logs -> extracted "
+           "check_sat_log_lenient (trace inclusion, theorem C01_trace_sound), (b) extracted o_valid on every returned solution")
 
 
 def run(res, tier, seed, replay):
     vlib.proof_gate(res, "C01", THEOREMS)
     if replay:
-        recs = ss.run_replay(replay)
-        hangs = []
+        recs, hangs = ss.run_replay(replay, dump=True), []
     else:
-        recs = ss.corpus_recs("C01")
+        recs = ss.corpus_recs("C01", dump=True)
         r2, hangs = ss.run_streams(ss.streams_for(tier), seed)
-        recs += r2
+        r3, h3 = ss.run_streams(tc.trace_streams(tier), seed + 1, dump=True)
+        recs += r2 + r3
+        hangs += h3
     ss.oracle_sat(recs)
-    nsat = 0
-    hist = {}
+    tc.annotate(recs)
+    nsat, hist = 0, {}
     for r in recs:
         k = ss.outcome_kind(r["obs"]["outcome"])
         hist[k] = hist.get(k, 0) + 1
         key = ss.case_key(r["case"])
-        if k == "sat":
-            nsat += 1
-            sol = r["obs"]["outcome"]["sat"]
-            res.count([key, r["stream"]], len(sol) >= 2)
-            res.sample({"case": r["case"], "solution": sol, "valid": r["valid"]})
-            if not r["valid"]:
-                res.violation(key, f"solution {sol} violates the rules of C01 (o_valid = false) in {r['stream']}",
-                              ss.replay_obj(r))
-        else:
+        if k != "sat":
             res.count([key, r["stream"]], False)
-    res.rule = ("universes from seeded generators (classes small/dense/greedy, all feature masks incl. soft "
-                "requirements, hints, locks, exclusions, unions, Unknown deps), run in debug+release and "
-                "sync+yielding runtimes; non-trivial = distinct (case, build) with a solution of >= 2 solvables")
-    res.extra.update({"outcomes": hist, "solutions_checked": nsat, "hangs": len(hangs)})
+            continue
+        nsat += 1
+        sol = r["obs"]["outcome"]["sat"]
+        res.count([key, r["stream"]], len(sol) >= 2)
+        res.sample({"case": r["case"], "solution": sol, "valid": r["valid"], "trace": r.get("trace")})
+        if not r["valid"]:
+            res.violation(key, f"solution {sol} violates the rules of C01 (o_valid = false) in {r['stream']}", ss.replay_obj(r))
+        elif "trace" in r and not (r["trace"].get("db") and r["trace"].get("run") and r["trace"].get("lenient")):
+            res.tie_break(f"trace inclusion (C01_trace_sound) no longer checks for a run in {r['stream']}: checker verdict "
+                          f"{r['trace']}; the returned solution itself is valid", tc.trace_replay(r))
+    res.rule = ("universes from seeded generators (classes small/dense/greedy/conflict, all feature masks incl. soft "
+                "requirements, hints, locks, exclusions, unions, Unknown deps), run in debug+release and sync+yielding "
+                "runtimes; every solution judged by o_valid, every hook log by the extracted trace checker; non-trivial = "
+                "distinct (case, build) with a solution of >= 2 solvables")
+    res.extra.update({"outcomes": hist, "solutions_checked": nsat, "hangs": len(hangs)}, **tc.stats(recs))
     return res.finish(CHECKER, vlib.TRUSTED_BASE,
                       ["provider well-formedness as generated (names consistent, candidate lists duplicate-free)",
                        "panics/hangs are C04's business; here only returned solutions are judged"])
